@@ -74,6 +74,16 @@ def oracle(toks, line):
         if op == "deny":
             return line == "ok copied=1 app=1" if ok else line in ("abort", "ok nullret")
         return line == (f"ok {kind}:{off}" if ok else "abort")
+    if op == "denyfs":
+        kind, off = parse_addr(toks[2]); c = int(toks[3]); sz = APPSZ[toks[1]]
+        if kind == "null":
+            return line in ("abort", "ok nullret")
+        if c == 0:
+            return line == "abort"
+        if not inside(kind, off, c * sz):
+            return line in ("abort", "ok nullret")
+        # carried out on exactly those bytes: the copy holds the source as it was, and the source was released once
+        return line == "ok copied=1 app=1 bytes=same freed=1"
     if op == "grant":
         kind, off = parse_addr(toks[2]); c = int(toks[3]); sz = APPSZ[toks[1]]
         if c == 0 or c > 0xFFFFFFFF:
@@ -176,9 +186,17 @@ def gen_ops(chk, thorough):
                     ops.append(f"deny {el} {d} {c}")
     for el in ("char", "short", "double"):
         sz = APPSZ[el]
+        for d in ("null", "in0:64", "in0:4096", f"in0:{BLK - 64}", f"in0:{BLK - 8}", "in0:1"):
+            for c in (0, 1, 2, 8, 64 // sz, 64 // sz + 1, 1000):
+                ops.append(f"denyfs {el} {d} {c}")
+    for el in ("char", "short", "double"):
+        sz = APPSZ[el]
         for s in ["null"] + [f"app:{o}" for o in app_starts] + ["in0:64", f"in0:{BLK - 16}", "in1:64"]:
-            for c in (0, 1, 2, 5, 8, 16, 17, 100, (BLK - 0x8000) // sz, (BLK - 0x8000) // sz + 1, BLK, 0xFFFFFFFF, 0x100000000, 1 << 40):
-                ops.append(f"grant {el} {s} {c}")
+            for c in (0, 1, 2, 5, 8, 16, 17, 100, (BLK - 0x8000) // sz, (BLK - 0x8000) // sz + 1, BLK, 0xFFFFFFFF, 0x100000000, 1 << 40,
+                      # element counts whose byte extent wraps the address space to a few bytes (or to exactly 2^32)
+                      (1 << 64) // sz + 2, (1 << 63) + 2, (1 << 64) // sz + 16 // sz, (1 << 64) - 1, ((1 << 64) + (1 << 32)) // sz):
+                if c < (1 << 64):
+                    ops.append(f"grant {el} {s} {c}")
     # a backend that declares can_grant_deny_access and grants (1), refuses with the caller's pointer (0) or refuses with null (2)
     for mode in (0, 1, 2):
         for el in ("char", "short", "double"):
